@@ -57,7 +57,7 @@ type hstream struct {
 	// error).  Used when the endpoint runs its own reader (NewEndPoint, EndPointFinalizer).
 	realClose bool
 	ended     bool // a Read has returned the stream's error: the reader is on its way out
-	onWrite  func()
+	onWrite   func()
 }
 
 func newHStream() *hstream {
@@ -694,7 +694,7 @@ func runScript(idx int, sc c17script) *caseObs {
 	// consecutive ids are one OMakes, the two steps of the close goroutines of consecutive handlers one OGoRange
 	// (C17Run.expand undoes both)
 	var runMake struct {
-		args     string
+		args    string
 		from, k int
 	}
 	var runGo struct{ from, k int }
